@@ -7,13 +7,13 @@ namespace CaddyModel.Gen
     off by default), `wrappedcred:<expr>` (the ShouldLogCredentials expression), `headerget:<name>` (a single
     named header value), `raw:<type>` (anything else). -/
 def logSites : List (String × String × String) := [
-  ("caddyhttp.ServeHTTP", "request", "wrappedcred:shouldLogCredentials"),
-  ("caddyhttp.logRequest", "resp_headers", "wrappedcred:shouldLogCredentials"),
+  ("caddyhttp.ServeHTTP", "request", "wrappedcred:server-flag"),
+  ("caddyhttp.logRequest", "resp_headers", "wrappedcred:server-flag"),
   ("fastcgi.RoundTrip", "request", "wrapped-value"),
   ("fastcgi.RoundTrip", "request", "wrapped-value"),
-  ("push.ServeHTTP", "push_headers", "wrappedcred:shouldLogCredentials"),
-  ("reverseproxy.reverseProxy", "headers", "wrappedcred:shouldLogCredentials"),
-  ("reverseproxy.reverseProxy", "request", "wrappedcred:shouldLogCredentials"),
+  ("push.ServeHTTP", "push_headers", "wrappedcred:server-flag"),
+  ("reverseproxy.reverseProxy", "headers", "wrappedcred:server-flag"),
+  ("reverseproxy.reverseProxy", "request", "wrappedcred:server-flag"),
   ("rewrite.ServeHTTP", "request", "wrapped")
 ]
 
